@@ -190,7 +190,8 @@ let from_double_case widen a =
 
 let stream_double_case widen a =
   match a with
-  | [bits] ->
+  | bits :: _ ->
+      (* an optional second argument is the number of bytes already in the stream: what is inserted does not depend on it *)
       let v = if widen then widen32 bits else n_of_string bits in
       (pr_outcome text_payload (stream_double render v), "OK " ^ text_payload (render [n_of_int 37; n_of_int 103] v))
   | _ -> failwith "stream_double: args"
